@@ -11,7 +11,7 @@ import sys
 import threading
 
 
-def _experiment(run_a, run_b, k, lib_prefix):
+def _experiment(run_a, run_b, k, lib_prefix, b_may_block=0.0):
     hit, go = threading.Event(), threading.Event()
     count = [0]
     out = {}
@@ -37,14 +37,27 @@ def _experiment(run_a, run_b, k, lib_prefix):
     t.start()
     hit.wait(20)
     preempted = t.is_alive() and count[0] >= k + 1
+    blocked = False
     if preempted:
-        try:
-            out["b"] = ("v", run_b())
-        except BaseException as e:
-            out["b"] = ("x", type(e).__name__, str(e)[:80])
+        def b_body():
+            try:
+                out["b"] = ("v", run_b())
+            except BaseException as e:
+                out["b"] = ("x", type(e).__name__, str(e)[:80])
+        if b_may_block:
+            # B may legitimately have to wait for a lock that the suspended A holds: give it a moment, then let A go on
+            tb = threading.Thread(target=b_body)
+            tb.start()
+            tb.join(b_may_block)
+            blocked = tb.is_alive()
+            go.set()
+            t.join(20)
+            tb.join(20)
+        else:
+            b_body()
     go.set()
     t.join(20)
-    return {"k": k, "preempted": preempted, "a": out.get("a"), "b": out.get("b"), "lines": count[0]}
+    return {"k": k, "preempted": preempted, "a": out.get("a"), "b": out.get("b"), "lines": count[0], "b_blocked": blocked}
 
 
 def _in_fork(fn):
@@ -68,10 +81,10 @@ def _in_fork(fn):
     return pickle.loads(data) if data else None
 
 
-def one_preemption(run_a, run_b, lib_prefix, max_points=600):
+def one_preemption(run_a, run_b, lib_prefix, max_points=600, b_may_block=0.0):
     """Yields one result dict per preemption point until A finishes before being preempted."""
     for k in range(max_points):
-        r = _in_fork(lambda: _experiment(run_a, run_b, k, lib_prefix))
+        r = _in_fork(lambda: _experiment(run_a, run_b, k, lib_prefix, b_may_block))
         if r is None:
             yield {"k": k, "preempted": False, "a": ("x", "child-died", ""), "b": None, "lines": -1}
             return
